@@ -268,6 +268,14 @@ func addUserMetadataToDescriptor(ctx context.Context, desc ocispec.Descriptor, u
 	if desc.Annotations == nil && len(userMetadata) > 0 {
 		desc.Annotations = map[string]string{}
 	}
+	if len(userMetadata) > 0 {
+		// do not write into the annotations map owned by the caller
+		annotations := make(map[string]string, len(desc.Annotations)+len(userMetadata))
+		for k, v := range desc.Annotations {
+			annotations[k] = v
+		}
+		desc.Annotations = annotations
+	}
 	for k, v := range userMetadata {
 		logger.Debugf("Adding metadata %v=%v to annotations", k, v)
 		for _, reservedPrefix := range reservedAnnotationPrefixes {
